@@ -223,3 +223,7 @@ func init() {
 func init() {
 	prop("C19", "C19-R1/statistics")
 }
+
+func init() {
+	prop("C11", "C11-R7")
+}
